@@ -1,5 +1,6 @@
 import RreModel.Proto
 import RreModel.C02.Model
+import RreModel.C02.Api
 /-
 Line protocol of C02/C03 (shared by Driver/C02.lean and Driver/C03.lean): parsing of case lines and
 observation lines, printing of the model's prediction. Format: see harness/src/bin/c02.rs.
@@ -98,6 +99,27 @@ def parseOp? (s : String) : Option Op :=
     | _ => none
   else none
 
+def isKbOp : Op → Bool
+  | .add _ | .remove _ | .enable _ _ => true
+  | _ => false
+
+/-- a case op: the primitive ops, plus `T` execute | `B0` / `B1` set_debug_mode | `Q0` / `Q1` disable / enable analytics | `M<A|R|E|D>…` the knowledge-base call
+through `knowledge_base_mut()` | `K` knowledge_base().clear() | `W<g>` execute_workflow_step | `Y<g>.<g>.…` execute_workflow -/
+def parseCall? (s : String) : Option Call :=
+  let rest := (s.drop 1).toString
+  if s = "T" then some .execNow
+  else if s = "K" then some .kbClear
+  else if s = "B0" then some (.setDebug false)
+  else if s = "B1" then some (.setDebug true)
+  else if s = "Q0" then some (.setAnalytics false)
+  else if s = "Q1" then some (.setAnalytics true)
+  else if s.startsWith "M" then do
+    let o ← parseOp? rest
+    if isKbOp o then some (.viaMut o) else none
+  else if s.startsWith "W" then rest.toNat?.map .wfStep
+  else if s.startsWith "Y" then ((rest.splitOn ".").mapM String.toNat?).map .workflow
+  else (parseOp? s).map .op
+
 /-- facts token: `-` | v,v,… with `_` for an absent field -/
 def parseFacts? (s : String) : Option (List (Option Int)) :=
   if s = "-" then some [] else (s.splitOn ",").mapM (fun x => if x = "_" then some none else x.toInt?.map some)
@@ -110,15 +132,16 @@ structure Case where
   nf : Nat
   facts : List (Nat × Int)
   rules : List Rule
-  ops : List Op
+  ops : List Call
 
 def parseCase? (line : String) : Option Case :=
   match tokens line with
   | [m, f, rs, os] => do
-    let m ← m.toNat?
+    -- `d`: the engine is built with `RustRuleEngine::new` (default configuration)
+    let m ← if m = "d" then some defaultMaxCycles else m.toNat?
     let f ← parseFacts? f
     let rs ← if rs = "-" then some [] else (rs.splitOn ";").mapM parseRule?
-    let os ← if os = "-" then some [] else (os.splitOn ";").mapM parseOp?
+    let os ← if os = "-" then some [] else (os.splitOn ";").mapM parseCall?
     pure { maxc := m, nf := f.length, facts := factsOf f, rules := rs, ops := os }
   | _ => none
 
@@ -154,13 +177,21 @@ def resEvents : Res → List Ev
   | .exec o => o.passes.flatten
   | _ => []
 
+def showCRes : CRes → String
+  | .res r => showRes r
+  | .workflow outs ok => if ok then s!"w{outs.length}" else "err"
+
+def cresEvents : CRes → List Ev
+  | .res r => resEvents r
+  | .workflow outs _ => (outs.map (fun o => o.passes.flatten)).flatten
+
 /-- the model's observation line -/
 def modelObs (c : Case) (st : St) : String :=
-  let rec go (st : St) : List Op → List String
+  let rec go (st : St) : List Call → List String
     | [] => []
     | op :: ops =>
-      let s := step c.maxc st op
-      s!"{showRes s.2}/{showEvents (resEvents s.2)}/{s.1.agenda.active}/{showFacts c.nf s.1.facts}" :: go s.1 ops
+      let s := callStep c.maxc nowT st op
+      s!"{showCRes s.2}/{showEvents (cresEvents s.2)}/{s.1.agenda.active}/{showFacts c.nf s.1.facts}" :: go s.1 ops
   let l := go st c.ops
   if l.isEmpty then "-" else ";".intercalate l
 
